@@ -31,6 +31,8 @@ SKIP_FILES = re.compile(r"^src/(transport/|monitor|termui|test_fixtures|mount)")
 BOUNDED_SRC = re.compile(r"binary_search|::len$|::count$|::position$|enumerate")
 
 ERR_ALLOWED = {
+    ("band::band_version_supported", "semver::Version::parse", "unwrap_or"):
+        "conservative: a version string that does not parse counts as unsupported, so Band::open fails with UnsupportedBandVersion",
     ("archive::Archive::list_band_ids", "core::str::<impl str>::parse", "ok"): "name filter",
     ("index::IndexRead::hunks_available", "core::str::<impl str>::parse", "ok"): "name filter",
     ("show::show_versions", "band::Band::open", None): "written as an ERROR-level log line; listing versions is outside the loudness clause",
@@ -98,6 +100,8 @@ def run(ck, w):
                     "%s().%s: a damaged file crashes the tool" % (s.callee_short(), s.detail), s.event.site())
     else:
         ck.ok(o, "%d site(s)" % len(sites), instances=len(sites))
+
+    _version_default_is_unsupported(ck, w)
 
     # ---- 3. loudness on restore / list ---------------------------------------------------------------------
     o = ck.ob("C10.3", "under restore and iter_entries every read/decoding failure is reported or propagated")
@@ -191,3 +195,19 @@ def run(ck, w):
         rules.guarded_by_bool(ck, o, lb, tests, False, ins, "len.is_none_or(==0)", "blocks.insert")
     else:
         ck.fail(o, lb.name, "no insert", "list_blocks inserts nothing")
+
+
+def _version_default_is_unsupported(ck, w):
+    """band_version_supported: the fallback for an unparseable version must be `false`."""
+    from cv import flow as _flow
+    b = w.lib.bodies.get("band::band_version_supported")
+    o = ck.ob("C10.2b", "band_version_supported: a version that does not parse counts as unsupported (never as supported, never a panic)")
+    if b is None:
+        ck.fail(o, "band::band_version_supported", "anchor-missing", "not found")
+        return
+    uo = [e for e in b.events if e.bb in b.live and re.search(r"Result::<T, E>::(unwrap_or|unwrap_or_default|is_ok_and)$", e.name)]
+    bad = [e for e in uo if e.name.endswith("unwrap_or") and not (e.args[1].get("k") == "const" and e.args[1].get("int") == "0")]
+    if bad:
+        ck.fail(o, b.name, "unparseable version treated as supported", "unwrap_or default is not false", bad[0].site())
+    else:
+        ck.ok(o)
